@@ -89,11 +89,12 @@ func mustHexTx(s string) []byte {
 
 // txOp is one node of a tx script.
 type txOp struct {
-	K    string
-	Tok  string
-	A, B int64 // ss: slot, value; xf: to, wei; ste/stb/bms: amount, to; qb: who
-	Body []txOp
-	Rev  bool
+	K     string
+	Tok   string
+	A, B  int64 // ss: slot, value; xf: to, wei; ste/stb/bms: amount, to; qb: who
+	Body  []txOp
+	Rev   bool
+	Execs []wExec // wx, wxm (c04txw_test.go)
 }
 
 func (o txOp) MarshalJSON() ([]byte, error) {
@@ -110,6 +111,14 @@ func (o txOp) MarshalJSON() ([]byte, error) {
 			body = []txOp{}
 		}
 		return json.Marshal([]interface{}{o.K, body, o.Rev})
+	case "wx":
+		if len(o.Execs) != 1 {
+			return nil, fmt.Errorf("wx takes one exec")
+		}
+		m, f := o.Execs[0].parts()
+		return json.Marshal([]interface{}{o.K, m, f})
+	case "wxm":
+		return json.Marshal([]interface{}{o.K, o.Execs})
 	}
 	return nil, fmt.Errorf("unknown tx op %q", o.K)
 }
@@ -155,6 +164,18 @@ func (o *txOp) UnmarshalJSON(bz []byte) error {
 			return err
 		}
 		return get(2, &o.Rev)
+	case "wx":
+		var e wExec
+		if err := get(1, &e.Msgs); err != nil {
+			return err
+		}
+		if err := get(2, &e.Funds); err != nil {
+			return err
+		}
+		o.Execs = []wExec{e}
+		return nil
+	case "wxm":
+		return get(1, &o.Execs)
 	}
 	return fmt.Errorf("unknown tx op %q", o.K)
 }
@@ -177,13 +198,23 @@ type txWorld struct {
 	r2, r3 gethcommon.Address // 2, 3
 	tok    map[string]gethcommon.Address
 	denom  map[string]string
+	wasm   sdk.AccAddress // 6: reflect.wasm owned by C (32-byte address)
 	accs   [][4]int64
 	stor   [][3]int64
 }
 
 var tokID = map[string]int64{"u": 4, "d": 8, "e": 14}
 var pseudoBase = map[string]int64{"d": 20, "e": 30}
-var holderIDs = []int64{1, 2, 3, 5}
+var holderIDs = []int64{1, 2, 3, 5}  // holders of ERC20 balances (EVM addresses)
+var bankIDs = []int64{1, 2, 3, 5, 6} // holders of bank balances
+
+// bankAddr: the bank address of a model holder (6 = the wasm contract, which has no EVM address)
+func (w *txWorld) bankAddr(id int64) sdk.AccAddress {
+	if id == 6 {
+		return w.wasm
+	}
+	return eth.EthAddrToNibiruAddr(w.addr(id))
+}
 
 func (w *txWorld) addr(id int64) gethcommon.Address {
 	switch id {
@@ -292,6 +323,8 @@ func newTxWorld(t *testing.T) *txWorld {
 	w.must(err, "encode")
 	w.mustTx(&w.c, data, "C: sendToBank(ORC, 300, C)")
 
+	w.setupWasm()
+
 	// the initial table of every case = the state of this world
 	obs := w.observe(d.Ctx, nil)
 	for _, a := range obs.Accs {
@@ -357,6 +390,13 @@ func (w *txWorld) encode(ops []txOp) ([]byte, error) {
 			payload, err = ft.Pack("bankMsgSend", w.addr(o.B).Hex(), w.denom[o.Tok], big.NewInt(o.A))
 		case "qb":
 			payload, err = ft.Pack("balance", w.addr(o.A), w.tok[o.Tok])
+		case "wx", "wxm":
+			payload, err = w.encodeWasm(o)
+			if err != nil {
+				return nil, err
+			}
+			out = append(out, w.callOp(precompile.PrecompileAddr_Wasm, big.NewInt(0), wasmGas, payload)...)
+			continue
 		default:
 			return nil, fmt.Errorf("unknown tx op %q", o.K)
 		}
@@ -386,11 +426,9 @@ func (w *txWorld) observe(ctx sdk.Context, init [][4]int64) c04Obs {
 		}
 		return 0, 0
 	}
-	for _, id := range holderIDs {
-		a := w.addr(id)
-		bal := bk.GetBalance(ctx, eth.EthAddrToNibiruAddr(a), "unibi").Amount.Int64()
-		acc := d.EvmKeeper.GetAccount(ctx, a)
-		if acc == nil {
+	for _, id := range bankIDs {
+		bal := bk.GetBalance(ctx, w.bankAddr(id), "unibi").Amount.Int64()
+		if !d.App.AccountKeeper.HasAccount(ctx, w.bankAddr(id)) {
 			obs.Accs = append(obs.Accs, [5]int64{id, 0, bal, 0, 0})
 			continue
 		}
@@ -404,8 +442,8 @@ func (w *txWorld) observe(ctx sdk.Context, init [][4]int64) c04Obs {
 		obs.Accs = append(obs.Accs, [5]int64{id, 1, bal, n, c})
 	}
 	for _, key := range []string{"d", "e"} {
-		for _, id := range holderIDs {
-			bal := bk.GetBalance(ctx, eth.EthAddrToNibiruAddr(w.addr(id)), w.denom[key]).Amount.Int64()
+		for _, id := range bankIDs {
+			bal := bk.GetBalance(ctx, w.bankAddr(id), w.denom[key]).Amount.Int64()
 			obs.Accs = append(obs.Accs, [5]int64{pseudoBase[key] + id, 1, bal, 0, 0})
 		}
 		sup := bk.GetSupply(ctx, w.denom[key]).Amount.Int64()
@@ -442,7 +480,7 @@ func (w *txWorld) runCase(in c04TxInput) c04Obs {
 	w.deps.EvmKeeper.Bank.StateDB = nil
 	ctx, _ := w.deps.Ctx.CacheContext()
 	var failure string
-	const txGas = 40_000_000
+	const txGas = 60_000_000
 	// the ante handler (not run here) would have moved the fee to the fee collector, which refunds the leftover;
 	// funded before the supply is read: it is not a supply change of the transaction
 	if err := testapp.FundFeeCollector(w.deps.App.BankKeeper, ctx, sdkmath.NewInt(txGas)); err != nil {
@@ -531,7 +569,11 @@ func (g *txGen) body(depth, maxLen, limit int) []txOp {
 		case depth < 3 && r.Chance(1, 4):
 			out = append(out, txOp{K: "fr", Body: g.body(depth+1, 5, limit), Rev: r.Chance(3, 5)})
 		case g.calls < limit && r.Chance(1, 2):
-			out = append(out, g.call())
+			if r.Chance(1, 3) {
+				out = append(out, g.wasmCall())
+			} else {
+				out = append(out, g.call())
+			}
 		default:
 			out = append(out, g.plain())
 		}
@@ -555,6 +597,9 @@ func (w *txWorld) input(tx []txOp) c04TxInput {
 func (w *txWorld) openers() []c04TxInput {
 	fr := func(rev bool, body ...txOp) txOp { return txOp{K: "fr", Body: body, Rev: rev} }
 	ss := func(k, v int64) txOp { return txOp{K: "ss", A: k, B: v} }
+	wx := func(msgs []wMsg, funds ...wFund) txOp {
+		return txOp{K: "wx", Execs: []wExec{{Msgs: msgs, Funds: funds}}}
+	}
 	const U = 1_000_000_000_000
 	var many []txOp
 	for i := 0; i < 12; i++ {
@@ -573,6 +618,17 @@ func (w *txWorld) openers() []c04TxInput {
 		{txOp{K: "ste", Tok: "d", A: 6, B: 2}, fr(true, txOp{K: "ste", Tok: "d", A: 6, B: 2}, ss(1, 9)), txOp{K: "xf", A: 2, B: U}},
 		{fr(true, fr(false, txOp{K: "bms", Tok: "u", A: 11, B: 3}), txOp{K: "stb", Tok: "e", A: 2, B: 3}), txOp{K: "ste", Tok: "e", A: 1, B: 1}},
 		many,
+		// the Wasm precompile: W re-dispatches bank sends (with funds attached), and EVM-module messages that must be
+		// refused inside a running EVM tx (direct and inside authz MsgExec), in reverted / kept frames, then more bank ops
+		{wx([]wMsg{{K: "send", Tok: "u", Amt: 7, To: 2}}, wFund{Tok: "u", Amt: 3}), ss(1, 5), txOp{K: "bms", Tok: "u", A: 2, B: 3}},
+		{fr(true, wx([]wMsg{{K: "conv", Tok: "u", Amt: 5, To: 2}})), txOp{K: "bms", Tok: "u", A: 50, B: 3}, ss(2, 1)},
+		{wx([]wMsg{{K: "conv", Tok: "u", Amt: 5, To: 2}}), txOp{K: "bms", Tok: "u", A: 50, B: 3}, txOp{K: "xf", A: 2, B: 3 * U}},
+		{fr(false, wx([]wMsg{{K: "send", Tok: "d", Amt: 4, To: 3}, {K: "exec", Inner: &wMsg{K: "conv", Tok: "d", Amt: 5, To: 2}}})),
+			txOp{K: "bms", Tok: "d", A: 3, B: 2}, txOp{K: "ste", Tok: "d", A: 6, B: 1}},
+		{wx([]wMsg{{K: "cft"}}), txOp{K: "xf", A: 3, B: U}, fr(true, wx([]wMsg{{K: "exec", Inner: &wMsg{K: "cft"}}}), ss(3, 3))},
+		{txOp{K: "wxm", Execs: []wExec{{Msgs: []wMsg{{K: "send", Tok: "u", Amt: 2, To: 1}}, Funds: []wFund{{Tok: "e", Amt: 5}}},
+			{Msgs: []wMsg{{K: "exec", Inner: &wMsg{K: "send", Tok: "d", Amt: 3, To: 2}}}}}},
+			fr(true, wx([]wMsg{{K: "send", Tok: "u", Amt: 9, To: 3}}, wFund{Tok: "d", Amt: 8})), txOp{K: "stb", Tok: "u", A: 4, B: 3}},
 	}
 	var out []c04TxInput
 	for _, s := range scripts {
